@@ -26,11 +26,16 @@ def graph_check(prop, tier, parts, *, level='model_checking', rule, assumptions=
     tot_states = tot_trans = tot_nontrivial = 0
     samples = []
     caps = []
+    bounds = []
     by_kind, by_outcome, by_class, extra = {}, {}, {}, {}
     parents_by_part = []
     for part in parts:
         opts = dict(part.get('opts', {}))
         opts['seed'] = sd
+        # safety caps: on the unchanged tree every quick part reaches its fixpoint far below them;
+        # they only bound the run when a change to the code makes the state space explode
+        opts.setdefault('time_cap', 100 if tier == 'quick' else 3000)
+        opts.setdefault('max_states', 40000 if tier == 'quick' else 2000000)
         res, info = explore.run_bfs(part['harness'], part['monitors'], prop, opts)
         parents = info.pop('parents')
         parents_by_part.append(parents)
@@ -46,6 +51,8 @@ def graph_check(prop, tier, parts, *, level='model_checking', rule, assumptions=
                 samples.append(dict(s, part=part['label']))
         for c in info['caps_hit']:
             caps.append(f"{part['label']}: {c}")
+        for c in info['bounds']:
+            bounds.append(f"{part['label']}: {c}")
         for dst, src in ((by_kind, res.by_kind), (by_outcome, res.by_outcome), (extra, res.extra),
                          (by_class, res.by_class)):
             for k, v in src.items():
@@ -54,6 +61,7 @@ def graph_check(prop, tier, parts, *, level='model_checking', rule, assumptions=
                           'initial_states': info['initial_states'], 'states': info['states'],
                           'transitions': res.transitions, 'fixpoint_reached': info['fixpoint'],
                           'depth_completed': info['depth_completed'], 'levels': info['levels'],
+                          'states_reached_not_expanded': info['states_seen'] - info['states'],
                           'disabled_by_cap': dict(res.disabled), 'wall_s': round(info['wall_s'], 2)})
     # merge findings with the same signature across parts
     merged = {}
@@ -89,8 +97,13 @@ def graph_check(prop, tier, parts, *, level='model_checking', rule, assumptions=
         'distinct_nontrivial': tot_nontrivial,
         'rule': rule,
         'samples': samples or [{'note': 'no sample selected'}],
-        'exhaustive': all(p['fixpoint_reached'] for p in cov_parts) and not caps,
+        'exhaustive': not caps,
+        'closed_under_menu': all(p['fixpoint_reached'] for p in cov_parts),
+        'explanation': 'exhaustive = every case of the stated alphabet was executed in every expanded state and no safety '
+                       'cap was hit; closed_under_menu = additionally the breadth-first closure reached its fixpoint '
+                       '(otherwise the stated depth bound applies)',
         'caps_hit': caps,
+        'depth_bounds': bounds,
         'parts': cov_parts,
         'transitions_by_message_class': dict(sorted(by_kind.items())),
         'distinct_outcome_classes': dict(sorted(by_outcome.items(), key=lambda kv: -kv[1])),
